@@ -53,6 +53,18 @@ logger = get_logger(__name__)
 
 # signature, bb, systemz
 # signature, bb, random_min_c_rep
+def _stored_format(path: pathlib.Path) -> str:
+    """Format ("json" or "pickle") a metadata / impacts file was written in.
+
+    The save side chooses the format from the case-insensitive suffix or from its
+    ``fmt`` argument, so the suffix alone does not tell: look at the content.  Pickle
+    streams (protocol 2 and later) start with the PROTO opcode 0x80, JSON text never does.
+    """
+    with path.open("rb") as fd:
+        head = fd.read(1)
+    return "pickle" if head == b"\x80" else "json"
+
+
 class PreOCF(ABC):
     """Abstract base class for ordinal conditional functions (Pre-OCFs).
 
@@ -205,9 +217,9 @@ class PreOCF(ABC):
             )
             return
 
-        if path.suffix == ".json":
+        if _stored_format(path) == "json":
             data = json.loads(path.read_text())
-        else:  # assume pickle by default
+        else:
             with path.open("rb") as fd:
                 data = pickle.load(fd)
 
@@ -1034,11 +1046,11 @@ class RandomMinCRepPreOCF(PreOCF):
         if not path.exists():
             raise FileNotFoundError(f"Impact file not found: {path}")
 
-        # Determine format from file extension
-        if path.suffix == ".json":
+        # Determine the format the file was written in
+        if _stored_format(path) == "json":
             with path.open("r") as fd:
                 impact_data = json.load(fd)
-        else:  # assume pickle
+        else:
             with path.open("rb") as fd:
                 impact_data = pickle.load(fd)
 
